@@ -13,6 +13,7 @@ import (
 	"verifharness/internal/c10"
 	"verifharness/internal/c11"
 	"verifharness/internal/c12"
+	"verifharness/internal/c13"
 	"verifharness/internal/c17"
 	"verifharness/internal/c19"
 	"verifharness/internal/c20"
@@ -32,6 +33,7 @@ var commands = map[string]func(args []string) *rep.Report{
 	"c10": c10.Run,
 	"c11": c11.Run,
 	"c12": c12.Run,
+	"c13": c13.Run,
 	"c17": c17.Run,
 	"c19": c19.Run,
 	"c20": c20.Run,
